@@ -2113,6 +2113,19 @@ class SymEval:
                 if all(t is not None for t in ts):
                     return all(ts) if q.endswith('all') else any(ts)
             return UNK
+        if q in ('numpy.all', 'numpy.any') and len(args) == 1 and not kwargs and \
+                isinstance(args[0], (SArray, list, tuple)):
+            # element-wise truth: numeric constants decide, generic symbols do not
+            v = args[0]
+            items = [v.get(i) for i in v.indices()] if isinstance(v, SArray) else list(v)
+            ts = [self.truth(x) for x in items]
+            if q.endswith('all'):
+                if any(t is False for t in ts):
+                    return False
+                return True if all(t is True for t in ts) else UNK
+            if any(t is True for t in ts):
+                return True
+            return False if all(t is False for t in ts) else UNK
         if q == 'builtins.bool':
             return self.truth(args[0])
         if q == 'numpy.where' and len(args) == 3 and not kwargs and hasattr(A, 'func') and \
